@@ -66,6 +66,10 @@ Theorem C03_sec_unpacker_total : forall txt e, sec_unpacker txt = Raise e -> e =
 Proof. exact sec_unpacker_total. Qed.
 Print Assumptions C03_sec_unpacker_total.
 
+Theorem C03_lot_unpacker_total : forall txt e, lot_unpacker txt = Raise e -> e = OutOfFuel.
+Proof. exact lot_unpacker_total. Qed.
+Print Assumptions C03_lot_unpacker_total.
+
 (* unpacking a Twp/Rge match raises only the documented errors for an invalid default direction *)
 Theorem C03_unpack_twprge_total : forall txt x mc_ns mc_ew e,
   In x (finditer twprge_regex twprge_regex_ng txt) -> unpack_short txt x mc_ns mc_ew = Raise e -> e = DefaultNSError \/ e = DefaultEWError.
